@@ -6,6 +6,7 @@ import (
 	"bytes"
 	"errors"
 	"fmt"
+	"github.com/diskfs/go-diskfs/partition"
 	"io"
 	"testing"
 
@@ -38,6 +39,7 @@ type c13Case struct {
 	ZeroNil bool      `json:"zeronil,omitempty"`
 	EOFWith bool      `json:"eofwith,omitempty"` // last piece returned together with io.EOF
 	Big     bool      `json:"big,omitempty"`     // >= 4 GiB partition streamed against the synthetic pattern (thorough)
+	Cached  bool      `json:"cached,omitempty"`  // the table is applied with Disk.Partition and used as it is, without reading it back
 }
 
 type pieceReader struct {
@@ -141,6 +143,7 @@ func genC13(t *rapid.T) any {
 	c.Pieces = rapid.SliceOfN(rapid.SampledFrom([]int{1, 3, 100, 511, 512, 513, 1000, 4095, 4096, 5000, 1 << 20}), 0, 4).Draw(t, "pieces")
 	c.ZeroNil = rapid.IntRange(0, 4).Draw(t, "zeronil") == 0
 	c.EOFWith = rapid.Bool().Draw(t, "eofwith")
+	c.Cached = rapid.IntRange(0, 2).Draw(t, "cachedTable") == 0
 	return c
 }
 
@@ -179,13 +182,18 @@ func execC13(ci any) (r hx.Result) {
 		r.Class("big-stream")
 		d.AddPattern(pStart, pStart+pSize)
 	}
-	if err, p, pv, st := writeTable(d, s); err != nil || p {
-		if p {
-			r.Fail("table-write-panic", "Table.Write panicked: %v [%s]", pv, st)
+	if s.G != nil && c.PSS != c.LSS {
+		s.G.PSS = c.PSS
+	}
+	if !c.Cached {
+		if err, p, pv, st := writeTable(d, s); err != nil || p {
+			if p {
+				r.Fail("table-write-panic", "Table.Write panicked: %v [%s]", pv, st)
+				return
+			}
+			r.Discard = true
 			return
 		}
-		r.Discard = true
-		return
 	}
 	if pStart >= 1<<32 || pStart+pSize > 1<<32 {
 		r.Class("geometry:beyond-4GiB")
@@ -208,7 +216,25 @@ func execC13(ci any) (r hx.Result) {
 		return
 	}
 	dk.PhysicalBlocksize = int64(c.PSS)
-	if _, err := dk.GetPartitionTable(); err != nil {
+	if c.Cached {
+		// the caller's own table object, as Disk.Partition keeps it: the usual create-partition-write flow
+		r.Class("table:cached")
+		var tbl partition.Table
+		if s.G != nil {
+			tbl = s.G.table()
+		} else {
+			tbl = s.M.table()
+		}
+		var perr error
+		if p, pv, st := hx.Safe(func() { perr = dk.Partition(tbl) }); p {
+			r.Fail("table-write-panic", "Disk.Partition panicked: %v [%s]", pv, st)
+			return
+		}
+		if perr != nil {
+			r.Discard = true
+			return
+		}
+	} else if _, err := dk.GetPartitionTable(); err != nil {
 		r.Fail("disk-table", "GetPartitionTable on the freshly written table: %v", err)
 		return
 	}
